@@ -321,6 +321,37 @@ def sample(ctx, budget=1.0, hint=None, broken=None):
         if not abs(got - want) <= tol:
             fail('bezier_point/degree=%d' % n, 'bezier_point is not the Bernstein curve', {'p': hexps, 't': t.hex()},
                  repr(got), repr(want), 'svgpathtools.bezier.bezier_point(%r, %r)' % (ps, t))
+        # (a') the same evaluation with t given as a numpy array / numpy scalar (the documented vectorised use), and bernstein itself
+        if it % 3 == 0 and n >= 1:
+            ts_ = [t, 0.0, 1.0, r.uniform(0, 1), 0.25]
+            form_ = r.choice(['ndarray', 'ndarray', 'np.float64', 'list->array'])
+            try:
+                if form_ == 'np.float64':
+                    gots_ = [bz.bezier_point(ps, np.float64(x_)) for x_ in ts_]
+                else:
+                    arr_ = np.array(ts_)
+                    keep_ = arr_.copy()
+                    gots_ = list(bz.bezier_point(ps, arr_))
+                    if not np.array_equal(arr_, keep_):
+                        fail('bezier_point/modifies its argument', 'bezier_point changed the array of parameters it was given', {'p': hexps, 't': ts_}, repr(arr_), repr(keep_),
+                             '(lambda a: (svgpathtools.bezier.bezier_point(%r, a), a)[-1])(numpy.array(%r))' % (ps, ts_))
+                for x_, g_ in zip(ts_, gots_):
+                    w_ = _bern_exact_c(ps, x_)
+                    if not abs(g_ - w_) <= 64 * 2.0 ** -52 * max(abs(p) for p in ps) * (1 + abs(x_)) ** n * (n + 1) * 4 + 1e-300:
+                        fail('bezier_point/%s t/degree=%d' % (form_, n), 'bezier_point with a numpy-typed parameter is not the Bernstein curve', {'p': hexps, 't': ts_, 'form': form_},
+                             repr(g_), repr(w_), 'svgpathtools.bezier.bezier_point(%r, numpy.array(%r))' % (ps, ts_) if form_ != 'np.float64'
+                             else 'svgpathtools.bezier.bezier_point(%r, numpy.float64(%r))' % (ps, x_))
+                        break
+                nontriv.add(('t-type', form_, n))
+                if n >= 1:
+                    bs_ = bz.bernstein(n, np.array(ts_))
+                    tot_ = sum(bs_)
+                    if not np.allclose(tot_, 1.0, rtol=0, atol=1e-9 * 2 ** n):
+                        fail('bernstein/ndarray t/n=%d' % n, 'the Bernstein basis evaluated at an array of parameters does not sum to 1', {'n': n, 't': ts_}, repr(tot_), 'ones',
+                             'sum(svgpathtools.bezier.bernstein(%d, numpy.array(%r)))' % (n, ts_))
+            except Exception as e:
+                fail('bezier_point/%s t raises' % form_, 'bezier_point / bernstein raised for a numpy-typed parameter', {'p': hexps, 't': ts_}, repr(e)[:200], 'points',
+                     'svgpathtools.bezier.bezier_point(%r, numpy.array(%r))' % (ps, ts_))
         # (b) bezier2polynomial, both orderings
         co = list(bz.bezier2polynomial(ps))
         co2 = list(bz.bezier2polynomial(ps, numpy_ordering=False))
